@@ -6,6 +6,9 @@ import AfkakProofs.Producer.ExactlyOnce
 import AfkakProofs.Producer.Acks0
 import AfkakProofs.Producer.Order
 import AfkakProofs.Producer.Progress
+import AfkakProofs.Producer.ReportedTrace
+import AfkakProofs.Producer.AfterStop
+import AfkakProofs.Producer.WireCompose
 /-!
 # C01 — Producer acknowledgements are truthful and fire exactly once
 Property theorems only.  Model: `Afkak/Producer.lean` (the Producer against the client interface);
@@ -24,8 +27,12 @@ theorem C01_fires_at_most_once (cfg : Cfg) (evs : List Ev) :
     `ok r`, the step's event is the client's answer (or its answer to the cancel in `stop`) to the LAST
     produce request observed, that request was still unanswered, `r` is one of the answer's responses
     with error 0, and the request's payload for `r`'s topic/partition contains the send; `ok None` only
-    with acks = 0 on the empty answer, for a send that was in a request; an exception object is never
-    delivered as a success value.  This is the monitor evaluated on traces of the real Producer. -/
+    with acks = 0, in the step that takes the client's answer to the request in flight (still unanswered), for a
+    send that was in a request, and only if the request was HANDED TO A CONNECTION as far as that answer tells: it
+    is the empty answer, or it ends the batch for good (`_req_attempts ≥ max_req_attempts` before the step) and
+    does not list the send's payload among the failed ones (for a total failure: the send is in no payload of
+    that request); an exception object is never delivered as a success value.  This is the monitor evaluated on
+    traces of the real Producer. -/
 theorem C01_success_only_if_acked (cfg : Cfg) (evs : List Ev) : successAcked cfg (traceOf cfg evs) = true :=
   successAcked_model cfg evs
 
@@ -70,6 +77,22 @@ theorem C01_acks0 (cfg : Cfg) (st : St) (e : Ev) (s : Sid) (o : Outcome)
     · subst e1; exact ⟨fun hc => Outcome.noConfusion hc, fun k hc => Outcome.noConfusion hc⟩
     · subst e1; exact ⟨fun _ => ⟨e2, rid, b, r, h1, h2, e4⟩, fun k hc => Outcome.noConfusion hc⟩
 
+/-- … and `None` is a success value only for what was handed over (handler level, any state whose `_outstanding`
+    has no duplicates - `C19_outstanding_nodup`): if `_handle_send_response` fires `ok None` for send `s`, the
+    result is the empty answer, or no attempt is left and `s` rides on NO payload the result reports failed
+    (`failedTps`: failed payloads and error-coded responses; for a total failure everything still listed). -/
+theorem C01_none_only_if_handed_over (cfg : Cfg) (st : St) (b : Batch) (r : ProdRes) (hnd : st.outstanding.Nodup)
+    (s : Sid) (h : Ob.fire s .okNone ∈ (handleSendResponse cfg st b r).2.1) :
+    (r = .none ∨ r = .responses []) ∨
+    (cfg.maxAttempts ≤ st.attempts ∧ ∀ tp ∈ failedTps b.live r, s ∉ b.sidsOf tp) :=
+  handleSendResponse_okNone cfg st b r hnd s h
+
+/-- The empty answer - trace level, for EVERY event list: in the step that takes the client's empty answer
+    (`None` / no responses) to the request in flight, every send of that request that is still outstanding fires
+    IN THAT STEP: with acks = 0 it succeeds with `None`, otherwise it fails with NoResponseError. -/
+theorem C01_empty_answer (cfg : Cfg) (evs : List Ev) : emptyAnswer cfg (traceOf cfg evs) = true :=
+  emptyAnswer_model cfg evs
+
 /-- Otherwise it fails: every other firing of a send's Deferred, by every handler in every state —
     look-up failure, exhausted retries, total failure, no response, user cancel, stop — is `err`. -/
 theorem C01_otherwise_fails (cfg : Cfg) (st : St) (e : Ev) (s : Sid) (o : Outcome)
@@ -105,26 +128,31 @@ theorem C01_fires_exactly_once (cfg : Cfg) (evs : List Ev) : resolvedFired cfg (
     (also as the answer to its cancellation by `stop`) accounts for every payload of that request - each
     payload has a response or is listed as failed; the empty answer and total failures account for all.
     CONCLUSION: whenever no batch is in flight, every accepted send (every id below `nextSid`, including
-    those refused for having no messages) is still queued, or its Deferred has fired EXACTLY once in the
-    run.  (No fairness is needed for this form: "the batch resolved" is the premise `phase = idle`; that a
-    batch in flight resolves needs the client to answer and timers to fire, which are events here.) -/
+    those refused for having no messages or because `stop()` had begun) has fired EXACTLY once in the run - or is
+    still queued, WHICH IS POSSIBLE ONLY WHILE `stop()` HAS NOT BEGUN (once it has, nothing is queued any more:
+    `C19_stopped_nothing_pending`; a send made after it is refused at once, F29).  (No fairness is needed for
+    this form: "the batch resolved" is the premise `phase = idle`; that a batch in flight resolves needs the
+    client to answer and timers to fire, which are events here: `C01_batch_resolves_within`.) -/
 theorem C01_fires_exactly_once_run (cfg : Cfg) (evs : List Ev) (hacc : Accounted cfg (St.init cfg) evs)
     (hidle : (run cfg (St.init cfg) evs).1.phase = .idle) :
     ∀ s, s < (run cfg (St.init cfg) evs).1.nextSid →
-      s ∈ queued (run cfg (St.init cfg) evs).1 ∨ (firedSids (run cfg (St.init cfg) evs).2).count s = 1 :=
-  run_fires_exactly_once cfg evs hacc hidle
+      ((run cfg (St.init cfg) evs).1.stopping = false ∧ s ∈ queued (run cfg (St.init cfg) evs).1) ∨
+      (firedSids (run cfg (St.init cfg) evs).2).count s = 1 :=
+  run_fires_exactly_once_strict cfg evs hacc hidle
 
-/-- "Eventually" - the liveness half, with its fairness hypothesis spelled out.  FAIRNESS (`unresolvedChain`
-    is its negation's witness): the environment keeps answering what the batch in flight waits for - the
-    client completes the produce request in flight with a valid result, the retry timer fires.  Then the
-    batch cannot stay unresolved: along any run, from any state in which a request is out or a retry is
-    pending, a chain of such answers none of which resolves the batch has at most
-    `2·(max_req_attempts − _req_attempts) + 1` members (`budget`); the next answer resolves it - and when it
-    has resolved, `C01_fires_exactly_once_run` says every send of it has fired exactly once. -/
+/-- "Eventually" - the liveness half, with its fairness hypothesis spelled out, and with ANYTHING ELSE going on in
+    between.  Take any run `evs` from a reachable state - new sends, cancels, ticks, stray timers, metadata
+    changes, stale or invalid client results, in any interleaving; only `stop()` is excluded - along which the
+    batch in flight stays unresolved (`unresolvedRun`: at every step a request is out or a retry is pending, and no
+    answer of the client resolves the batch).  Then the number of ANSWERS among the events (`answerCount`: the
+    client's valid result for THE request in flight, THE retry timer firing) is at most
+    `2·(max_req_attempts − _req_attempts) + 1` (`budget`).  FAIRNESS is thus exactly: the environment keeps
+    answering what the batch waits for; after at most `budget` answers the next one resolves the batch - and
+    when it has resolved, `C01_fires_exactly_once_run` says every send of it has fired exactly once. -/
 theorem C01_batch_resolves_within (cfg : Cfg) (pre evs : List Ev)
-    (h : unresolvedChain cfg (run cfg (St.init cfg) pre).1 evs) :
-    evs.length ≤ budget cfg (run cfg (St.init cfg) pre).1 :=
-  run_unresolved_bound cfg pre evs h
+    (h : unresolvedRun cfg (run cfg (St.init cfg) pre).1 evs) :
+    answerCount cfg (run cfg (St.init cfg) pre).1 evs ≤ budget cfg (run cfg (St.init cfg) pre).1 :=
+  run_answers_bound cfg pre evs h
 
 /-- … and never more than once, whatever the client does: the fired ids of a whole run are distinct. -/
 theorem C01_run_fires_nodup (cfg : Cfg) (evs : List Ev) : (firedSids (run cfg (St.init cfg) evs).2).Nodup :=
@@ -139,12 +167,26 @@ theorem C01_acks0_succeeds (cfg : Cfg) (evs : List Ev) : acks0 cfg (traceOf cfg 
   acks0_model cfg evs
 
 /-- Payload integrity — trace level, for EVERY event list: every produce request has at least one payload,
-    at most one per topic/partition; every payload is made of WHOLE sends (a payload is a list of send
-    ids: its messages are the concatenation of those sends' messages, each send's key with it), at least
-    one; no send is in two payloads of a request; and every send in a payload is a send that was really
-    made (`send_messages` was called with that id) FOR THAT PAYLOAD'S TOPIC. -/
+    at most one per topic/partition; every payload is made of WHOLE sends, at least one; no send is in two
+    payloads of a request; every send in a payload is a send that was really made (`send_messages` was called with
+    that id) FOR THAT PAYLOAD'S TOPIC; and the payload's MESSAGES (`Payload.msgs`: key and value of each message
+    the request puts on the wire, in order) are EXACTLY the messages of those sends, send after send - each value
+    of a `send_messages` call under that call's key, in the call's order (`p.msgs == p.sids.flatMap wireOf`):
+    same keys, same values, same order, nothing added, nothing lost. -/
 theorem C01_payload_integrity (cfg : Cfg) (evs : List Ev) : payloads cfg (traceOf cfg evs) = true :=
   payloads_model cfg evs
+
+/-- … down to the wire (composition with the wire package's model of `create_message_set`, `Afkak/Wire/Message.lean`):
+    the Producer passes the `SendRequest`s `rs` of a payload, in order, to `create_message_set`; the message list
+    it builds is, message for message, the payload's `msgs` (`rs.flatMap (·.wire)`) - key, value and order - as
+    format-`magic` messages; with no compression that list IS the message set of the produce payload (with gzip:
+    the one wrapper's value is the compressed encoding of exactly that list, `createMessageSet_gzip`).  `body` maps
+    a value's size to its bytes (the Producer model abstracts a value to its size). -/
+theorem C01_payload_is_message_set (ext : Afkak.Wire.Ext) (body : Nat → List UInt8) (magic : Int) (rs : List Req)
+    (p : Payload) (hp : p.msgs = rs.flatMap (·.wire)) :
+    Afkak.Wire.createMessageSet ext (rs.map (WireCompose.sendArg body)) Afkak.Consts.codecNone magic =
+      .ok (p.msgs.map (WireCompose.wireMsg ext body magic)) :=
+  WireCompose.createMessageSet_none ext body magic rs p hp
 
 /-! Non-vacuity: a run in which Deferreds do fire (an acknowledged send, a cancelled one). -/
 def exCfg : Cfg := Cfg.ofArgs 1 3 (1/4) false 1 1 none false
@@ -161,6 +203,13 @@ def exChain : List Ev :=
 example : budget exCfg (run exCfg (St.init exCfg) exPre).1 = 5 := by decide +kernel
 example : unresolvedChain exCfg (run exCfg (St.init exCfg) exPre).1 exChain :=
   unresolvedChainB_sound _ _ _ (by decide +kernel)
+/-- the same answers with a new send, a tick, a stray timer and a stale result in between: 4 answers, budget 5 -/
+def exRun : List Ev :=
+  [.send 1 0 none [some 1], .produceDone 0 (.responses [⟨⟨0, 0⟩, 7, -1⟩]), .tick, .timer 0, .timer 9,
+   .produceDone 0 (.responses []), .produceDone 1 (.responses [⟨⟨0, 0⟩, 7, -1⟩]), .cancel 1, .timer 1]
+example : unresolvedRun exCfg (run exCfg (St.init exCfg) exPre).1 exRun :=
+  unresolvedRunB_sound _ _ _ (by decide +kernel)
+example : answerCount exCfg (run exCfg (St.init exCfg) exPre).1 exRun = 4 := by decide +kernel
 
 end Afkak.Props.C01
 
@@ -169,6 +218,8 @@ C01_fires_at_most_once
 C01_success_only_if_acked
 C01_success_only_if_acked_step
 C01_acks0
+C01_none_only_if_handed_over
+C01_empty_answer
 C01_otherwise_fails
 C01_never_dropped
 C01_fires_exactly_once
@@ -176,6 +227,7 @@ C01_fires_exactly_once_run
 C01_run_fires_nodup
 C01_acks0_succeeds
 C01_payload_integrity
+C01_payload_is_message_set
 C01_batch_resolves_within
 -/
 /- OPEN_STATEMENTS
